@@ -440,11 +440,22 @@ Proof.
     cbn [orb negb]; try discriminate.
   - exfalso. apply String.eqb_eq in E1. apply String.eqb_eq in E2. rewrite E1 in E2. discriminate E2.
   - destruct (r_up_tls r) eqn:Et; cbn [Bool.eqb negb]; [discriminate|].
+    destruct (q_fault q); [discriminate|].
     destruct (rewrite_request fx q pl (u_host t)) as [hh h] eqn:Er. intro H. inversion H; subst.
     exists u, t. apply String.eqb_eq in E1. rewrite Er. splits; auto.
   - destruct (r_up_tls r) eqn:Et; cbn [Bool.eqb negb]; [|discriminate].
+    destruct (q_fault q); [discriminate|].
     destruct (rewrite_request fx q pl (u_host t)) as [hh h] eqn:Er. intro H. inversion H; subst.
     exists u, t. pose proof E2 as E2'. apply String.eqb_eq in E2. rewrite Er. splits; auto.
+Qed.
+
+Lemma serve_forwarded_intact fx q pl r tls m uri host hs body :
+  serve fx q pl r = Forwarded tls m uri host hs body -> q_fault q = false.
+Proof.
+  unfold serve. destruct (view_url q) as [u|]; [|discriminate].
+  destruct (execute fx r u) as [t|]; [|discriminate].
+  destruct (negb _); [discriminate|]. destruct (negb _); [discriminate|].
+  destruct (q_fault q); [discriminate | reflexivity].
 Qed.
 
 (** every field the upstream sees, name by name *)
@@ -672,7 +683,7 @@ Qed.
 
 Definition ex_req (m raw q : string) (hs : list (string * string)) (trusted : bool) : request :=
   {| q_method := m; q_raw := raw; q_query := q; q_host := "h.example.com"; q_headers := hs; q_body := "body";
-     q_tls := false; q_peer := "127.0.0.2"; q_trusted := trusted; q_xfu := None |}.
+     q_fault := false; q_tls := false; q_peer := "127.0.0.2"; q_trusted := trusted; q_xfu := None |}.
 Definition ex_rule (st : setting) (rw : option rewriter) : rule :=
   {| r_setting := st; r_backend := {| b_host := "up:8080"; b_rw := rw |}; r_up_tls := false; r_tracing := false |}.
 Definition ex_rw (cut add : string) (strip : list string) : option rewriter :=
@@ -784,7 +795,7 @@ Theorem F9_refuted : exists q pl r,
   option_map u_rawpath (view_url q) = Some "/%zz" /\ forwarded_uri (serve repaired2 q pl r) = "/".
 Proof.
   exists {| q_method := "GET"; q_raw := "/users"; q_query := ""; q_host := "h.example.com";
-            q_headers := [("X-Forwarded-Uri", "/%zz")]; q_body := ""; q_tls := false; q_peer := "127.0.0.2";
+            q_headers := [("X-Forwarded-Uri", "/%zz")]; q_body := ""; q_fault := false; q_tls := false; q_peer := "127.0.0.2";
             q_trusted := true; q_xfu := Some ("/%zz", "") |}, no_pl, (ex_rule NoDecode None).
   vm_compute. splits; reflexivity.
 Qed.
@@ -800,7 +811,7 @@ Definition nv_req : request :=
      q_headers := [("X-USER", "mallory"); ("x-forwarded-method", "DELETE"); ("X-Forwarded-For", "6.6.6.6");
                    ("Cookie", "c=1"); ("connection", "close, X-Drop"); ("X-Drop", "1"); ("Accept", "*/*");
                    ("X-Role", "admin")];
-     q_body := "{""a"":1}"; q_tls := true; q_peer := "127.0.0.9"; q_trusted := false; q_xfu := None |}.
+     q_body := "{""a"":1}"; q_fault := false; q_tls := true; q_peer := "127.0.0.9"; q_trusted := false; q_xfu := None |}.
 Definition nv_pl : pipeline :=
   {| p_headers := [("x-user", "alice"); ("Authorization", "Bearer t"); ("X-User", "second"); ("x-role", "")];
      p_cookies := [("sid", "1")] |}.
@@ -828,7 +839,7 @@ Definition nv2_req : request :=
      q_headers := [("X-Forwarded-For", "10.0.0.1"); ("x-forwarded-for", "10.0.0.2");
                    ("X-Forwarded-Uri", "/api/o%2Fp?b=1&a=%7E&&c"); ("X-Forwarded-Host", "orig.example.com");
                    ("X-Forwarded-Method", "GET"); ("X-Forwarded-Path", "/p")];
-     q_body := ""; q_tls := false; q_peer := "127.0.0.2"; q_trusted := true;
+     q_body := ""; q_fault := false; q_tls := false; q_peer := "127.0.0.2"; q_trusted := true;
      q_xfu := Some ("/api/o%2Fp", "b=1&a=%7E&&c") |}.
 Definition nv2_rule : rule :=
   {| r_setting := NoDecode; r_backend := {| b_host := "up:8080"; b_rw := ex_rw "/api" "" ["zz"] |};
